@@ -178,7 +178,7 @@ def gen_probe(rng: random.Random) -> dict[str, Any]:
 
 
 SHARED_V = {
-    "shared.s": [b".db 1, 2, 3\nshared_l1:\n", b".db 9\nnop\nshared_l2:\n.dw 0x1234\n", b"inx\n"],
+    "shared.s": [b".db 1, 2, 3\nshared_l1:\n", b".db 9\nnop\nshared_l2:\n.dw 0x1234\n", b"inx\n", b".db 1,\n?\n", b"lda.q #1\n", b"{\nnop\n"],
     "shared.bin": [b"\x01\x02\x03\x04", b"\xff" * 9, b"\x00"],
     "shared.tbl": [b"41=A\n42=B\n43=C\n", b"61=A\n62=B\n", b"4100=A\n4200=B\n43=C\n"],
 }
